@@ -37,6 +37,11 @@ CLAIMS = {
         "Decides structural necessary conditions only: Acquire on every path that grants release of the storage, Release on every hand-over, no event access after hand-over, release_event discipline, one deallocation primitive per storage strategy. One violation on the pinned tree (missing acquire fence in sender_dropped_without_set's DISCONNECTED arm) was a genuine defect and is repaired by a fix: commit. Leak freedom at quiescence and the full happens-before relation over all schedules are not decided.",
         "Trusted: rustc nightly MIR, factgen extraction of orderings as evaluated constants, the return-shape table (SPEC) in vf/props/c06.py; C11 release/acquire semantics as the reason the rule is necessary.",
         "DESIGN.md section 3, C06"),
+    "C07": (
+        "MIR rules keyed on the syntactic re-entry points (Waker clone/wake/drop sites found by the user-code classifier): must-pass-through of a state re-read between a callback and any later cell access or state store, dominance (terminal store before wake, revert before drop, clone before cell), reachability (no callback after extraction), per-path sink counting for cloned wakers, dominating-switch typestate table on Cell<u8> reads",
+        "Decides structural necessary conditions only: re-validation after every callback unless the state is already terminal, terminal-before-wake, extraction-is-last, clone-before-cell, revert-before-drop with a fresh read, release discipline, waker balance, cell typestate table. The tree of nested callback programs is not explored.",
+        "Trusted: rustc nightly MIR, factgen extraction, the user-code classification, the cell/typestate tables in vf/props/c07.py restating core/state.rs and docs/callback-safety.md.",
+        "DESIGN.md section 3, C07"),
     "C18": (
         "MIR rules: exactly-once forwarding on every path, argument/return identity by backward slice, who-may-call on the counters, dominance of register-before-publish",
         "Decides structural necessary conditions only: each GlobalAlloc method forwards exactly once with unchanged arguments and returns the inner result; (size,1) is recorded exactly once for alloc/alloc_zeroed/realloc and never for dealloc; counters are thread-local and registered before publication; spans subtract their start snapshot. It does not decide exactness over all allocation histories/interleavings.",
